@@ -68,8 +68,8 @@ ASSUMPTIONS = [
     "paginated-search: every hit carries `sort` and every page has at least one hit; hits.total is present",
     "status 299 / 300 are generated as boundary values of the status rule although no Elasticsearch version emits them",
 ]
-BUDGET = {"quick": 2600, "thorough": 30000}
-WALL_BUDGET_S = {"quick": 85, "thorough": 1500}
+BUDGET = {"quick": 2600, "thorough": 20000}
+WALL_BUDGET_S = {"quick": 85, "thorough": 900}
 REQUIRED_CLASSES = {
     "kind:bulk": 150,
     "kind:paginated": 150,
@@ -933,7 +933,7 @@ def _maybe_run_atheris():
     tier = _argv_value("--tier", os.environ.get("VERIF_TIER", "quick"))
     if tier != "thorough" or "--shard" in sys.argv or "--replay" in sys.argv:
         return
-    seconds = int(os.environ.get("VERIF_ATHERIS_S", "420"))
+    seconds = int(os.environ.get("VERIF_ATHERIS_S", "300"))
     jobs = int(os.environ.get("VERIF_ATHERIS_JOBS", "8"))
     if seconds <= 0 or jobs <= 0:
         _ATHERIS_INFO.update({"atheris": "disabled by VERIF_ATHERIS_S/VERIF_ATHERIS_JOBS"})
